@@ -43,6 +43,7 @@ SPECS = {
     # 9: empty-deriving bodies under repetition (C06)
     "nullstar": '<start> ::= ("a"?)* "b"\n',
     "nullrule": '<start> ::= <e>* "b"\n<e> ::= "a" | ""\n',
+    "starrep": '<start> ::= ("a"* "a"){2} "c"\n',
     "zeromin": '<start> ::= "a"{,1} "c" | "b"{0,2}\n',
     "nulltwice": '<start> ::= <e> <e> "b"\n<e> ::= "a" | ""\n',
     "nullopen": '<start> ::= ("a"?){2,} "b"\n',
